@@ -6,6 +6,9 @@ P=$1; X=$2; CHECKS=$3
 WT=/tmp/seed_$P; OUT=$WT/_out/$X; DST=/verif/seeded/$P-$X
 [ -f $OUT/patch.diff ] || { echo "no patch"; exit 2; }
 mkdir -p $DST; cp $OUT/patch.diff $OUT/demo.rs $DST/; cp $OUT/README.md $DST/README.md 2>/dev/null
+if [ -n "$SKIP_DEMO" ] && [ -f $DST/meta.json ]; then
+  demo_clean=KEEP; demo_mut=KEEP; suite=KEEP
+else
 crate=pie; grep -q "graph/tests" $OUT/demo.rs && crate=pie_graph
 dir=pie; [ $crate = pie_graph ] && dir=graph
 cd $WT || exit 2
@@ -18,15 +21,16 @@ demo_mut=$(cargo test --offline -p $crate $feat --test seed_demo_$X 2>&1 | grep 
 rm -f $dir/tests/seed_demo_$X.rs
 suite=$(cargo test --workspace --no-fail-fast --offline 2>&1 | grep -E "^test result|^error" | awk '{f+=$6; p+=$4} /^error/{e=1} END{print "passed="p" failed="f" build_error="(e?1:0)}')
 git checkout -q -- . 
+fi
 echo "demo on clean tree : $demo_clean"; echo "demo with change   : $demo_mut"; echo "suite with change  : $suite"
 # now against /repo
 cd /repo; [ -z "$(git status --porcelain --untracked-files=no)" ] || { echo "repo dirty"; exit 2; }
 git apply $OUT/patch.diff || { echo "patch does not apply to /repo"; exit 2; }
 results="{"
 for c in $CHECKS; do
-  out=$(/verif/check $c quick 2>&1); code=$?
+  out=$(/verif/check $c ${TIER:-quick} 2>&1); code=$?
   first=$(echo "$out" | grep -A1 "^VIOLATION" | grep "oracle=" | head -1 | cut -c1-300)
-  echo "check $c quick -> exit $code ${first}"
+  echo "check $c ${TIER:-quick} -> exit $code ${first}"
   results="$results\"$c\": {\"exit\": $code, \"first_violation\": $(python3 -c 'import json,sys; print(json.dumps(sys.argv[1]))' "$first")},"
 done
 git checkout -q -- .; git status --porcelain --untracked-files=no
@@ -35,9 +39,17 @@ python3 - "$P" "$X" "$demo_clean" "$demo_mut" "$suite" "$results" <<'PY'
 import json,sys
 P,X,dc,dm,suite,res=sys.argv[1:7]
 readme=open(f'/verif/seeded/{P}-{X}/README.md').read() if __import__('os').path.exists(f'/verif/seeded/{P}-{X}/README.md') else ''
-meta={"breaks_property":P,"variant":X,"origin":"independent sub-agent given only the property text and a scratch worktree",
- "confirmed":{"demo_on_clean_tree":dc,"demo_with_change":dm,"existing_suite_with_change":suite},
- "quick_checks_run_against_it":json.loads(res),
- "needs_to_manifest":"see README.md (written by the seeding agent)"}
+import os
+mf=f'/verif/seeded/{P}-{X}/meta.json'
+tier=os.environ.get('TIER','quick')
+if dc=='KEEP' and os.path.exists(mf):
+    meta=json.load(open(mf))
+else:
+    meta={"breaks_property":P,"variant":X,"origin":"independent sub-agent given only the property text and a scratch worktree",
+     "confirmed":{"demo_on_clean_tree":dc,"demo_with_change":dm,"existing_suite_with_change":suite},
+     "quick_checks_run_against_it":{},
+     "needs_to_manifest":"see README.md (written by the seeding agent)"}
+key='quick_checks_run_against_it' if tier=='quick' else 'thorough_checks_run_against_it'
+meta.setdefault(key,{}).update(json.loads(res))
 json.dump(meta,open(f'/verif/seeded/{P}-{X}/meta.json','w'),indent=1)
 PY
